@@ -374,9 +374,9 @@ class _HandlerProbe(object):
 
 
 class Harness(object):
-    def __init__(self):
+    def __init__(self, parent=None):
         import logging
-        self.root = tempfile.mkdtemp(prefix='c18-')
+        self.root = tempfile.mkdtemp(prefix='c18-', dir=parent)
         self._undo = []
         try:
             conf = os.path.join(self.root, 'mapproxy.yaml')
@@ -456,10 +456,10 @@ class Harness(object):
 _HARNESS = None
 
 
-def harness():
+def harness(parent=None):
     global _HARNESS
     if _HARNESS is None:
-        _HARNESS = Harness()
+        _HARNESS = Harness(parent)
     return _HARNESS
 
 
@@ -547,7 +547,7 @@ def exclusions(case):
         out.append(SIG_CAPS_HOST)
     if seg in ('service', 'ows', 'wms'):
         exc = ','.join(args.get('exceptions', [])).lower()
-        if ('image' in exc or 'blank' in exc) and any(_CTL_OR_WIDE.search(v) for v in args.get('format', [])):
+        if ('image' in exc or 'blank' in exc) and any(v not in CONFIGURED_FORMATS for v in args.get('format', [])):
             out.append(SIG_HDR_IMGEXC)
         if rt == 'getfeatureinfo' and any(_CTL_OR_WIDE.search(v) for v in args.get('info_format', [])):
             out.append(SIG_HDR_FI)
@@ -568,7 +568,8 @@ XML_ERROR_SERVICES = ('service', 'ows', 'wms', 'wmts', 'tms')
 #: percent-escapes (and raw forms) of characters that XML 1.0 cannot represent at all
 _XML_ILLEGAL_ESC = re.compile(r'%(?:0[0-8bBcCeEfF]|1[0-9a-fA-F])|[\x00-\x08\x0b\x0c\x0e-\x1f]')
 _XML_ILLEGAL_BYTES = re.compile(rb'[\x00-\x08\x0b\x0c\x0e-\x1f]')
-SIG_HDR_IMGEXC = 'C18/wsgi/bad-header-value/content-type/wms-image-exception-format'
+SIG_HDR_IMGEXC = 'C18/wms-image-exception/content-type-is-raw-format'
+CONFIGURED_FORMATS = ('image/png', 'image/jpeg', 'image/gif', 'image/tiff')
 SIG_HDR_FI = 'C18/wsgi/bad-header-value/content-type/wms-featureinfo-info_format'
 
 
@@ -599,13 +600,11 @@ def sanitize(case, keys):
         case['headers'] = [[k, re.sub(_HOSTILE_HOST_CHARS, '_', v) if k.lower() in HOSTISH else v] for k, v in case['headers']]
     if SIG_LEGEND_TYPE in keys:
         case['query'] = _replace_param(case.get('query', ''), {'format'}, lambda vd: 'image/png')
-    if SIG_HDR_IMGEXC in keys or SIG_HDR_FI in keys:
-        names = set()
-        if SIG_HDR_IMGEXC in keys:
-            names.add('format')
-        if SIG_HDR_FI in keys:
-            names.add('info_format')
-        case['query'] = _replace_param(case.get('query', ''), names, lambda vd: _CTL_OR_WIDE.sub('_', vd))
+    if SIG_HDR_IMGEXC in keys:
+        case['query'] = _replace_param(case.get('query', ''), {'format'},
+                                       lambda vd: vd if vd in CONFIGURED_FORMATS else 'image/png')
+    if SIG_HDR_FI in keys:
+        case['query'] = _replace_param(case.get('query', ''), {'info_format'}, lambda vd: _CTL_OR_WIDE.sub('_', vd))
     return case
 
 
@@ -721,6 +720,11 @@ def judge(case, res, reached, h, st_):
                 actual = PIL_MIME.get(img.format, 'image/' + str(img.format).lower())
                 if actual != ct and rt == 'getlegendgraphic' and reached and reached[0] in ('service', 'ows', 'wms'):
                     out.append((SIG_LEGEND_TYPE, 'GetLegendGraphic answer declared %s but the body is %s' % (ct, actual)))
+                elif actual != ct and reached and reached[0] in ('service', 'ows', 'wms') and ct not in CONFIGURED_FORMATS \
+                        and re.search('image|blank', ','.join(args.get('exceptions', [])).lower()) \
+                        and any(v.split(';')[0].strip().lower() == ct for v in args.get('format', [])):
+                    out.append((SIG_HDR_IMGEXC, 'image exception declared %r (the raw FORMAT value) but the body is %s'
+                                % (res.header('content-type'), actual)))
                 elif actual != ct and not any(r in ('header-value-ctl', 'header-not-latin1') for r, _ in res.problems):
                     out.append((sig('image', 'type-mismatch', '%s-declared-%s' % (actual.split('/')[1],
                                                                                re.sub(r'[^a-z0-9.+-]', '_', ct.split('/')[1][:12])), where),
@@ -1205,6 +1209,8 @@ _OPEN = None
 def open_signatures():
     """open known findings of C18, read once per process (other builders rewrite their files concurrently)"""
     global _OPEN
+    if _OPEN is None and os.environ.get('C18_ASSUME_FIXED'):
+        _OPEN = set()    # development aid: run against a tree with the proposed repairs applied, no exclusions
     if _OPEN is None:
         for attempt in range(5):
             try:
@@ -1252,7 +1258,12 @@ def evaluate(case, stats, h=None, apply_exclusions=True):
         classes.append('demo-selffetch')
     stats.case(key=case_key(case), nontrivial=bool(reached), classes=classes + tags,
                sample={k: (v if not isinstance(v, str) or len(v) < 400 else v[:400] + '...') for k, v in case.items()})
-    return [core.Violation(s, msg + ' | ' + describe(case, res), case) for s, msg in found]
+    seen, out = set(), []
+    for s, msg in found:
+        if s not in seen:
+            seen.add(s)
+            out.append(core.Violation(s, msg + ' | ' + describe(case, res), case))
+    return out
 
 
 def describe(case, res):
@@ -1388,7 +1399,7 @@ def fuzz_main(argv):
         print('ATHERIS-UNAVAILABLE %r' % (e,))
         sys.exit(3)
     with atheris.instrument_imports(include=['mapproxy'], enable_loader_override=False):
-        h = harness()
+        h = harness(parent=workdir)     # inside the campaign directory, which the parent process removes
     st_ = core.Stats()
     crash_dir = os.path.join(workdir, 'crashes')
     os.makedirs(crash_dir, exist_ok=True)
